@@ -4,7 +4,7 @@ CONSTANTS
   Sources <- Both
   BaseDepth = 2
   FinalOps = "few"
-  StartCalcs <- NoStartCalc
+  Starts <- NoStart
   Emit = FALSE
 INVARIANT KF2Gone
 CHECK_DEADLOCK FALSE
